@@ -6,12 +6,14 @@ import (
 
 	"simlal/sim"
 	"simlal/sim/media"
+	"simlal/sim/rtpc"
 )
 
 func genC15Plan(r *sim.Rng, tier string) RelayPlan {
 	var pl RelayPlan
-	pl.Conf = LalConf{ApiEnable: true, FlvEnable: true, TsEnable: true, NoHook: true}
+	pl.Conf = LalConf{ApiEnable: true, FlvEnable: true, TsEnable: true, RtspEnable: true, NoHook: true}
 	pl.Conf.QueueSize = []int{16, 24, 33, 64, 64}[r.Intn(5)]
+	queueDraw := pl.Conf.QueueSize
 	pl.Conf.RtmpGop = []int{0, 0, 1}[r.Intn(3)]
 	pl.Conf.FlvGop = []int{0, 0, 1}[r.Intn(3)]
 	pl.Conf.RtmpGop, pl.Conf.FlvGop, pl.Conf.TsGop = 0, 0, 0 // a GOP replay larger than the queue would overflow a healthy consumer
@@ -22,22 +24,42 @@ func genC15Plan(r *sim.Rng, tier string) RelayPlan {
 	pl.Sched.Chaos = 0
 	pl.Sched.Preempt = 0
 	nStreams := 1 + r.Intn(2)
+	// an RTP packet is one entry of an interleaved RTSP player's write queue, so with the shrunk queues a large frame
+	// alone would overflow a healthy player's queue: runs with RTSP players publish frames of a few packets only
+	withRtsp := r.Bool(0.4)
+	if withRtsp && queueDraw < 64 {
+		pl.Conf.QueueSize = 64
+	}
 	for s := 0; s < nStreams; s++ {
 		p := PubPlan{Stream: s, Inc: s, VideoCodec: media.CodecAVC, AudioCodec: media.SoundAAC, AacSr: 4}
 		if r.Bool(0.2) {
 			p.VideoCodec = 0
 		}
-		n := 40 + r.Intn(60)
+		n := 70 + r.Intn(60)
 		if tier == "thorough" {
-			n = 80 + r.Intn(200)
+			n = 110 + r.Intn(200)
 		}
 		prof := RelayProfile{BigUnits: 0.05}
+		if withRtsp {
+			prof.BigUnits = 0
+			n += 200 // the stream has to fill a stalled player's queue and keep flowing across two liveness sweeps
+		}
 		genUnits(r.Fork(fmt.Sprintf("u%d", s)), &p, prof, n)
+		if withRtsp {
+			for i := range p.Units {
+				if p.Units[i].Size > 2000 {
+					p.Units[i].Size = 1200 + p.Units[i].Size%800
+				}
+			}
+		}
 		// steady timestamps
 		pl.Pubs = append(pl.Pubs, p)
 	}
 	nCons := 2 + r.Intn(5)
 	protos := []string{"rtmp", "flv", "wsflv", "ts", "wsts"}
+	if withRtsp {
+		protos = append(protos, "rtsp", "rtsp", "rtsp")
+	}
 	for c := 0; c < nCons; c++ {
 		pl.Cons = append(pl.Cons, ConsPlan{Stream: r.Intn(nStreams), Proto: protos[r.Intn(len(protos))]})
 	}
@@ -90,7 +112,49 @@ func genC15Plan(r *sim.Rng, tier string) RelayPlan {
 		pl.Ops = append(pl.Ops, RelayOp{Kind: "settle"})
 		pl.Ops = append(pl.Ops, RelayOp{Kind: "advance", Ms: 300 + r.Intn(900)})
 	}
+	// RTSP command connections have no write timeout: a stalled interleaved player is removed by the liveness sweep
+	// (every 120 s), so the stream keeps flowing for a few more minutes of simulated time when one is stalled
+	for c := range pl.Cons {
+		if stall[c] && pl.Cons[c].Proto == "rtsp" {
+			// first enough frames to fill its write queue for good (lal counts a queued packet as written) ...
+			for i := 0; i < 10; i++ {
+				for s := 0; s < nStreams; s++ {
+					pl.Ops = append(pl.Ops, RelayOp{Kind: "send", Pub: s, N: 8})
+				}
+				pl.Ops = append(pl.Ops, RelayOp{Kind: "settle"}, RelayOp{Kind: "advance", Ms: 500})
+			}
+			// ... then a slow trickle across two sweeps
+			for i := 0; i < 27; i++ {
+				for s := 0; s < nStreams; s++ {
+					pl.Ops = append(pl.Ops, RelayOp{Kind: "send", Pub: s, N: 1})
+				}
+				pl.Ops = append(pl.Ops, RelayOp{Kind: "settle"}, RelayOp{Kind: "advance", Ms: 10000})
+			}
+			break
+		}
+	}
 	return pl
+}
+
+// rtspFramingProblem: what an interleaved RTSP player received must be whole '$' frames carrying RTP / RTCP of its tracks.
+func rtspFramingProblem(c *ConsState) string {
+	a := c.Rtsp
+	if a.Failed != "" && a.Ready {
+		return "the interleaved stream no longer parses: " + a.Failed
+	}
+	for n, r := range a.Rtp {
+		if r.Track < 0 || r.Track >= len(a.Tracks) {
+			return fmt.Sprintf("frame #%d arrived on channel %d of no track", n, 2*r.Track)
+		}
+		p, err := rtpc.Parse(r.B)
+		if err != nil {
+			return fmt.Sprintf("frame #%d on channel %d is not an RTP packet: %v", n, 2*r.Track, err)
+		}
+		if int(p.PT) != a.Tracks[r.Track].PT {
+			return fmt.Sprintf("frame #%d on channel %d carries payload type %d, the track's is %d", n, 2*r.Track, p.PT, a.Tracks[r.Track].PT)
+		}
+	}
+	return ""
 }
 
 // CheckC15: a stalled consumer delays nobody, is disconnected, and what it got is well framed.
@@ -136,6 +200,17 @@ func CheckC15(k *sim.Kernel, rr *RelayRun) {
 						}
 					}
 				}
+			case "rtsp":
+				if c.ClosedByLal() && !c.Left {
+					k.Violate("C15.healthy-disconnected", "%s: lal closed a healthy consumer", name)
+				}
+				if prob := rtspFramingProblem(c); prob != "" {
+					k.Violate("C15.healthy-framing", "%s: %s", name, prob)
+				}
+				rc := ParseRtspSession(c.Rtsp)
+				if len(rc.Problems) > 0 {
+					k.Violate("C15.healthy-framing", "%s: %s", name, rc.Problems[0]) // includes sequence gaps: nothing may be dropped for a healthy player
+				}
 			case "ts", "wsts":
 				if c.Http != nil && c.ClosedByLal() && !c.Left {
 					k.Violate("C15.healthy-disconnected", "%s: lal closed a healthy consumer", name)
@@ -163,7 +238,35 @@ func CheckC15(k *sim.Kernel, rr *RelayRun) {
 				}
 			}
 		}
-		if c.ResumedAtMs == 0 && pubActiveAfter-c.StallAtMs > 14000 && !c.ClosedByLal() {
+		if c.Rtsp != nil {
+			// no write timeout on RTSP command connections: the liveness sweep (2 x 120 s) removes it
+			// lal counts a packet as written when it is queued: the sweep can only notice the stall once the queue is
+			// full, i.e. after queue-size more packets (every frame is at least one packet)
+			queueFullBy := int64(-1)
+			after := 0
+			for _, p := range rr.Pubs {
+				if p.Plan.Stream != c.Plan.Stream || p.Actor == nil {
+					continue
+				}
+				for ui, su := range p.Actor.Sent {
+					if su.ProcessedStep >= 0 && su.ProcessedMs > c.StallAtMs && ui < len(p.Units) && isFrame(p.Units[ui].Kind) {
+						after++
+						if after == rr.Plan.Conf.QueueSize+8 {
+							queueFullBy = su.ProcessedMs
+						}
+					}
+				}
+			}
+			if queueFullBy < 0 {
+				queueFullBy = 1 << 60
+			}
+			if c.ResumedAtMs == 0 && pubActiveAfter-queueFullBy > 250000 && !c.ClosedAtEnd && c.BlockedAtEnd {
+				k.Violate("C15.stalled-not-disconnected", "%s stopped reading at %d ms; the stream kept flowing until %d ms but the liveness sweep never disconnected it", name, c.StallAtMs, pubActiveAfter)
+			}
+			if pubActiveAfter-queueFullBy > 250000 {
+				k.Probe("c15_rtsp_sweep_judged")
+			}
+		} else if c.ResumedAtMs == 0 && pubActiveAfter-c.StallAtMs > 14000 && !c.ClosedByLal() {
 			var conn *sim.Conn
 			if c.Rtmp != nil {
 				conn = c.Rtmp.Conn
@@ -179,6 +282,10 @@ func CheckC15(k *sim.Kernel, rr *RelayRun) {
 		}
 		// (4) framing of whatever it received: parses cleanly; units are published units, in order, no duplicate
 		switch c.Plan.Proto {
+		case "rtsp":
+			if prob := rtspFramingProblem(c); prob != "" {
+				k.Violate("C15.framing", "%s: %s", name, prob)
+			}
 		case "rtmp":
 			if c.Rtmp.ParseErr != nil {
 				k.Violate("C15.framing", "%s: the RTMP chunk stream it received does not parse: %v", name, c.Rtmp.ParseErr)
@@ -241,6 +348,22 @@ func init() {
 			fromJSON(plan, &pl)
 			rr := ExecRelay(k, pl)
 			// let stalled consumers drain what lal still has for them, then judge
+			for _, c := range rr.Cons {
+				if !c.Stalled {
+					continue
+				}
+				c.ClosedAtEnd = c.ClosedByLal()
+				var conn *sim.Conn
+				switch {
+				case c.Rtmp != nil:
+					conn = c.Rtmp.Conn
+				case c.Http != nil:
+					conn = c.Http.Conn
+				case c.Rtsp != nil:
+					conn = c.Rtsp.Conn
+				}
+				c.BlockedAtEnd = conn != nil && (conn.WriterBlocked() || conn.Window() == 0)
+			}
 			for i, c := range rr.Cons {
 				if c.Stalled && !c.ClosedByLal() {
 					rr.exec(k, RelayOp{Kind: "resume", Cons: i})
